@@ -77,3 +77,27 @@ End LimitTie.
 (* every limit(n) argument of the query is in the range where Go defines uint64(float) *)
 Definition limit_defined (t : tables) (e : expr) : bool :=
   N.eqb (limit_of_expr (fun ps => match limit_arg t ps with Some _ => 0%N | None => 1%N end) e) 0.
+
+(* ---------------------------------------------------------------- dependence on Go's map order *)
+(* The model visits the members of an object in the order of the association list; ojg visits them
+   in Go's map order, which is unspecified.  A case is order dependent when the model's result
+   changes if every object (of the record and of the nested documents) is visited in the opposite
+   order; such cases are not compared (the implementation's answer varies from run to run). *)
+Fixpoint jv_rev (v : jv) : jv :=
+  match v with
+  | JArr l => JArr (map jv_rev l)
+  | JObj l => JObj (rev (map (fun kv => match kv with (k, x) => (k, jv_rev x) end) l))
+  | _ => v
+  end.
+
+Definition run_model_rev (t : tables) (e : expr) (r : jv) : res (bool * jv) :=
+  eval_model (t_float t) (t_re t) (t_time t) (t_b64 t)
+             (fun s => match t_json t s with Some d => Some (jv_rev d) | None => None end)
+             (t_xml t) (fun st _ => st) e (jv_rev r).
+
+Definition order_dependent (t : tables) (e : expr) (r : jv) : bool :=
+  match run_model t e r, run_model_rev t e r with
+  | Ok (b, _), Ok (b', _) => negb (Bool.eqb b b')
+  | Panic _, Panic _ => false
+  | _, _ => true
+  end.
